@@ -436,6 +436,8 @@ class Explorer(object):
                     r = True
                 elif a is None or b is None:
                     r = False
+                elif (isinstance(a, Abs) and a.props.get('distinct')) or (isinstance(b, Abs) and b.props.get('distinct')):
+                    r = False        # a value known to differ from every constant and every other abstract value
                 else:
                     raise Undecided('equality of abstract values {!r} / {!r}'.format(a, b), node)
             else:
@@ -446,6 +448,8 @@ class Explorer(object):
                 r = a in b
             elif isinstance(b, (list, tuple)):
                 r = any(x is a for x in b)
+            elif isinstance(b, str) and isinstance(a, Abs) and a.props.get('distinct'):
+                r = False
             else:
                 raise Undecided('membership in {!r}'.format(b), node)
             return r if isinstance(op, ast.In) else not r
@@ -644,9 +648,13 @@ def _parts(x):
 
 
 def _as_load(t):
-    import copy
-    t2 = copy.deepcopy(t)
-    for x in ast.walk(t2):
-        if hasattr(x, 'ctx'):
-            x.ctx = ast.Load()
-    return t2
+    """the target of an augmented assignment read as a value (no deep copy: nodes carry parent links)"""
+    if isinstance(t, ast.Name):
+        n = ast.Name(id=t.id, ctx=ast.Load())
+    elif isinstance(t, ast.Attribute):
+        n = ast.Attribute(value=t.value, attr=t.attr, ctx=ast.Load())
+    elif isinstance(t, ast.Subscript):
+        n = ast.Subscript(value=t.value, slice=t.slice, ctx=ast.Load())
+    else:
+        raise Undecided('augmented assignment target outside the abstract interpreter', t)
+    return ast.copy_location(n, t)
